@@ -50,9 +50,11 @@ namespace cds_verif { namespace atomics {
             {
                 if ( !cds_verif::active()) { v().store( val, mo ); return; }
                 cds_verif::point( addr(), K_STORE );
-                T old = v().load( memory_order_relaxed );
                 v().store( val, mo );
-                cds_verif::after_op( addr(), K_STORE, int( mo ), true, differs( old, val ));
+                // A plain store always counts as a value-changing step. Comparing with the previous content would make the flag depend on
+                // what a freshly allocated block happened to contain (libcds initialises many nodes by store() into raw memory), i.e.
+                // on heap addresses - and the flag decides the cost of other threads' yields, hence the shape of the schedule tree.
+                cds_verif::after_op( addr(), K_STORE, int( mo ), true, true );
             }
 
             T load( memory_order mo = memory_order_seq_cst ) const volatile noexcept
